@@ -352,6 +352,8 @@ pub struct RunOut {
     pub leftover: [usize; 2],
     /// bytes accepted from the TLS layer by the transport stack but never delivered to the peer's queue
     pub unflushed: [u64; 2],
+    pub op_pending: [[bool; 3]; 2],
+    pub flush_incomplete: [Option<(u64, u64)>; 2],
     pub dropped_held: [usize; 2],
     pub trace: Vec<String>,
 }
@@ -486,6 +488,8 @@ pub fn run_one(mat: &Material, cfg: &Cfg, plan: &Plan, tracing: bool) -> RunOut 
         gates_opened,
         leftover,
         unflushed,
+        op_pending: wb.op_pending,
+        flush_incomplete: wb.flush_incomplete,
         dropped_held: wb.dropped_held,
         trace: std::mem::take(&mut wb.trace),
     }
@@ -498,6 +502,17 @@ pub fn judge(cfg: &Cfg, out: &RunOut) -> Result<String, (String, String)> {
         End::Panic(p) => return Err(("panic".into(), format!("{p} ({stages})"))),
         End::Spin(p) => return Err(("spin".into(), format!("{p} ({stages})"))),
         _ => {}
+    }
+    for s in 0..2 {
+        if let Some((a, d)) = out.flush_incomplete[s] {
+            return Err((
+                format!("transport-flush-incomplete-{}", SIDE_NAME[s]),
+                format!(
+                    "the transport stack handed to compio-tls ({}) answered poll_flush/poll_close with Ready(Ok) while only {d} of the {a} bytes it had accepted were delivered; run ended {:?} with {stages}",
+                    SIDE_NAME[s], out.end
+                ),
+            ));
+        }
     }
     // the error that happened first is the primary one
     let mut errs: Vec<(u64, usize)> = (0..2)
@@ -520,17 +535,29 @@ pub fn judge(cfg: &Cfg, out: &RunOut) -> Result<String, (String, String)> {
         } else {
             "deadlock@handshake".to_string()
         };
-        match (out.unflushed[0] > 0, out.unflushed[1] > 0) {
-            (true, true) => oracle.push_str("+unflushed-both"),
-            (true, false) => oracle.push_str("+unflushed-client"),
-            (false, true) => oracle.push_str("+unflushed-server"),
-            _ => {}
+        let mut abandoned = Vec::new();
+        for s in 0..2 {
+            if out.unflushed[s] > 0 {
+                let ops: Vec<&str> = (0..3).filter(|i| out.op_pending[s][*i]).map(|i| ["write", "flush", "close"][i]).collect();
+                if ops.is_empty() {
+                    oracle.push_str(&format!("+unflushed-{}", SIDE_NAME[s]));
+                } else {
+                    oracle.push_str(&format!("+pending-{}-abandoned-by-{}", ops.join("-"), SIDE_NAME[s]));
+                    abandoned.push(format!(
+                        "{}'s last poll_{} returned Pending, its waker was woken, the side was polled again and never repeated the call",
+                        SIDE_NAME[s],
+                        ops.join("/")
+                    ));
+                }
+            }
         }
         return Err((
             oracle,
             format!(
-                "no side can run, no wake-up outstanding, no gate closed: {stages}; bytes the TLS layer wrote to its transport that never reached the peer (stuck in the adapter / transport buffer although the layer stopped flushing): client {} server {}; bytes queued for a reader that does not read: c2s {} s2c {}",
-                out.unflushed[0], out.unflushed[1], out.leftover[0], out.leftover[1]
+                "no side can run, no wake-up outstanding, no gate closed: {stages}; bytes the TLS layer wrote to its transport that never reached the peer (stuck in the adapter / transport buffer although the layer stopped flushing): client {} server {}; bytes queued for a reader that does not read: c2s {} s2c {}{}{}",
+                out.unflushed[0], out.unflushed[1], out.leftover[0], out.leftover[1],
+                if abandoned.is_empty() { "" } else { "; " },
+                abandoned.join("; ")
             ),
         ));
     }
